@@ -37,9 +37,15 @@ func LoadWordVectors(filepath string) (*Index, error) {
 	}
 
 	idx := &Index{
-		Dimension:   100, // GloVe 100d
-		WordVectors: make(map[string][]float32, vocabSize),
+		Dimension: 100, // GloVe 100d
 	}
+
+	// Never size the table from the header alone: a damaged header can claim
+	// billions of entries. A record takes at least 2 + 4*Dimension bytes.
+	if maxRecords := remainingBytes(f, 4) / int64(2+4*idx.Dimension); int64(vocabSize) > maxRecords {
+		return nil, fmt.Errorf("word vector file too short for %d entries", vocabSize)
+	}
+	idx.WordVectors = make(map[string][]float32, vocabSize)
 
 	// Read each word and vector
 	for i := uint32(0); i < vocabSize; i++ {
@@ -92,6 +98,12 @@ func (idx *Index) LoadCommandEmbeddings(filepath string) error {
 		return fmt.Errorf("dimension mismatch: expected %d, got %d", idx.Dimension, dimension)
 	}
 
+	// Never size the table from the header alone (see LoadWordVectors).
+	recordSize := int64(4) * int64(dimension)
+	if numCommands > 0 && (recordSize == 0 || int64(numCommands) > remainingBytes(f, 8)/recordSize) {
+		return fmt.Errorf("command embedding file too short for %d embeddings", numCommands)
+	}
+
 	// Read embeddings
 	idx.CmdEmbeddings = make([][]float32, numCommands)
 	for i := uint32(0); i < numCommands; i++ {
@@ -103,6 +115,16 @@ func (idx *Index) LoadCommandEmbeddings(filepath string) error {
 	}
 
 	return nil
+}
+
+// remainingBytes returns how many bytes the file holds after the first `header` bytes
+// (0 if the size cannot be determined).
+func remainingBytes(f *os.File, header int64) int64 {
+	fi, err := f.Stat()
+	if err != nil || fi.Size() < header {
+		return 0
+	}
+	return fi.Size() - header
 }
 
 // EmbedQuery computes an embedding for a query by averaging word vectors.
